@@ -239,8 +239,17 @@ class EBNF_to_BNF(Transformer_InPlace):
 
     def _cache_key(self, key):
         # Helper rules inherit rule_options (keep_all_tokens), and terminals compare equal regardless of
-        # filter_out, so a helper may only be shared between rules that agree on keep_all_tokens.
-        return key, bool(self.rule_options and self.rule_options.keep_all_tokens)
+        # filter_out, so a helper may only be shared between rules that agree on keep_all_tokens,
+        # and between items whose terminals agree on filter_out (``"x"+`` vs ``X+`` with ``X: "x"``).
+        def filter_out_of(x):
+            if isinstance(x, Terminal):
+                return x.filter_out
+            if isinstance(x, Tree):
+                return tuple(filter_out_of(c) for c in x.children)
+            if isinstance(x, tuple):
+                return tuple(filter_out_of(c) for c in x)
+            return None
+        return key, bool(self.rule_options and self.rule_options.keep_all_tokens), filter_out_of(key)
 
     def _add_rule(self, key, name, expansions):
         t = NonTerminal(name)
